@@ -4,13 +4,13 @@ go 1.23.0
 
 require (
 	github.com/anishathalye/porcupine v1.3.0
+	github.com/biogo/store v0.0.0-20190426020002-884f370e325d
 	github.com/openziti/storage v0.0.0
 	go.etcd.io/bbolt v1.4.0
 )
 
 require (
 	github.com/antlr4-go/antlr/v4 v4.13.1 // indirect
-	github.com/biogo/store v0.0.0-20190426020002-884f370e325d // indirect
 	github.com/davecgh/go-spew v1.1.1 // indirect
 	github.com/google/uuid v1.6.0 // indirect
 	github.com/mattn/go-colorable v0.1.12 // indirect
